@@ -30,6 +30,8 @@ CONSTANTS
   StartIdle = FALSE
   EveryExitStops = TRUE
   RxDropAtLoopEnd = TRUE
+  DequeueBatch = 0
+  QueueCap = 0
 SPECIFICATION FairSpec
 PROPERTIES L_StopLeadsToRunReturn L_MustStopExit
 INVARIANTS TypeOK
